@@ -11,6 +11,7 @@ CONSTANTS
  Withs = {TRUE, FALSE}
  Chunks = {1, 7}
  LyingSizes = TRUE
+ LieMax = 2
  InlineData = FALSE
  Conc = 3
  Probes = FALSE
@@ -19,6 +20,7 @@ CONSTANTS
  TarUnverified = FALSE
  MTs = {TRUE, FALSE}
  DigestHdrs = {"absent", "echo", "served"}
+ Trailers = {TRUE, FALSE}
  Sts = {"std"}
  DropKinds = {"ueof"}
 INIT GInit
